@@ -1,10 +1,12 @@
 /-
   Driver verb of C02:   godecl <schemas-id> <pkg> <flags>
     flags = six characters 0/1: json marshaller, strict unmarshaller, equal, validate, any_as_interface, skip_runtime
-  reply:  welltyped - <text>  |  illtyped <first offending declaration:reason> <text>  |  crash <site> -
+  reply:  welltyped - <hyp> <text>  |  illtyped <first offending declaration:reason> <hyp> <text>  |  crash <site> <hyp> -
+  <hyp>  = hyp:ok when the hypotheses of C02_go_decls_partial hold for the schemas, else hyp:<which fail>
   <text> = the declarations of `<pkg>/types_gen.go` as the model prints them, white space removed.
 -/
 import Cog.Sem.GoDeclCheck
+import Cog.Sem.GoDeclHyp
 import Cog.Sem.GoDeclRender
 import Cog.Drv.SchemaStore
 namespace Cog.Drv
@@ -57,22 +59,32 @@ def diagnoseCtor (env : Env) (fuel : Nat) (cur : String) : List GoDecl → Optio
       | .ctor n r b => some (n ++ ":literal:" ++ whyNot env fuel cur b (.ptr (.named cur r)))
       | _ => none
 
+def hypText (ss : Schemas) : String :=
+  let a := GoPrintable ss
+  let b := wfNames ss
+  if a && b then "hyp:ok" else "hyp:" ++ (if a then "" else "not-printable") ++ (if a || b then "" else "+") ++ (if b then "" else "names")
+
 def godeclReply (ss : Schemas) (pkg : String) (cfg : Cfg) : String :=
   let env := emitEnv cfg ss
   let cur := fmtPkg pkg
   let ds := pkgDecls cur env
+  let hyp := hypText ss
   match declsCrash ds with
-  | some site => "crash " ++ noSpaces site ++ " -"
+  | some site => "crash " ++ noSpaces site ++ " " ++ hyp ++ " -"
   | none =>
     let text := stripWs (renderDecls cur ds)
     let fuel := checkFuel env
-    if namesOk ds && declsOk env fuel cur ds then "welltyped - " ++ text
+    if namesOk ds && declsOk env fuel cur ds then
+      -- outside the checker and the theorem: recursive value types (modelled, not proved)
+      (match recursiveDecl env cur ds with
+        | some n => "illtyped " ++ noSpaces n ++ ":invalid-recursive-type(extra-check-outside-wellTyped) " ++ hyp ++ "+recursive-value-type " ++ text
+        | none => "welltyped - " ++ hyp ++ " " ++ text)
     else
       let why := match diagnosePkg env cur with
         | some w => if (w.splitOn ":literal:").length > 1 then
             (match diagnoseCtor env fuel cur ds with | some w' => w' | none => w) else w
         | none => "?"
-      "illtyped " ++ noSpaces why ++ " " ++ text
+      "illtyped " ++ noSpaces why ++ " " ++ hyp ++ " " ++ text
 
 def godeclLine (rest : String) : IO String := do
   match rest.splitOn " " with
